@@ -1,6 +1,7 @@
 pub mod c01;
 pub mod c02;
 pub mod c03;
+pub mod c06;
 pub mod numeric;
 
 use crate::report::Report;
@@ -13,6 +14,7 @@ pub fn run_prop(id: &str, cfg: &Cfg, rep: &mut Report) -> bool {
         "C03" => c03::run(cfg, rep),
         "C04" => numeric::run(numeric::Mode::C04, cfg, rep),
         "C05" => numeric::run(numeric::Mode::C05, cfg, rep),
+        "C06" => c06::run(cfg, rep),
         _ => return false,
     }
     true
